@@ -154,6 +154,15 @@ def run(ctx, report):
                 want_r = [x for x in want_r if x != 'op0']
             if rname in ('ret', 'retf') and args:
                 pass
+            # the degenerate x87 forms on st(0) itself: fxch st(0) exchanges nothing (no result depends on st(0), nothing is modified); a popping arithmetic
+            # instruction whose destination is st(0) computes a value that the pop discards at once -- no modelled result depends on st(0) (the x87 exception
+            # flags are modelled for no x87 row); what the pop reads and writes stays required
+            if args and args[0].kind == 'Id' and args[0].name == 'float_st0':
+                if rname == 'fxch':
+                    want_r = [x for x in want_r if x not in ('float_st0', 'op0')]
+                    want_w = [x for x in want_w if x not in ('float_st0', 'op0')]
+                elif rname in POPPING_ARITH and len(args) == 1:
+                    want_r = [x for x in want_r if x not in ('float_st0', 'op0')]
             # NR:opK = operand K is overwritten before the stack moves: its old value is not an input
             not_read = set()
             for item in [x for x in want_r if x.startswith('NR:op')]:
@@ -291,6 +300,9 @@ def run(ctx, report):
                      '(the instruction, the key): the segments asked for (segm_to_do) and the other arguments of the lifting call select the answer of every call (shared with C12.D17)', floor=1)
     from .c12 import cache_key_rule
     cache_key_rule(R9, [ctx.mod(n_) for n_ in ('emul_helper', 'ia32_sem', 'ia32_arch', 'ppc_sem', 'ppc_arch') if n_ in __import__('sa.srcmodel', fromlist=['MODULES']).MODULES])
+
+
+POPPING_ARITH = ('faddp', 'fsubp', 'fsubrp', 'fmulp', 'fdivp', 'fdivrp')
 
 
 def rep_count_rule(ctx, R):
